@@ -573,10 +573,14 @@ bool CanettiGennaroJareckiKrawczykRabinRVSS::Share
 		mpz_set_ui(rhs, n); // broadcast end marker
 		rbc->Broadcast(rhs);
 		complaints_counter.clear(), complaints_from.clear(); // reset for final complaint resolution
+		std::vector< std::vector<size_t> > complainers(n); // who complained against whom
 		for (size_t j = 0; j < n; j++)
 			complaints_counter.push_back(0); // initialize counter
 		for (std::vector<size_t>::iterator jt = complaints.begin(); jt != complaints.end(); ++jt)
+		{
 			complaints_counter[dkg2idx[*jt]]++; // count my own complaints
+			complainers[dkg2idx[*jt]].push_back(i);
+		}
 		complaints.clear();
 		for (size_t j = 0; j < n; j++)
 		{
@@ -599,6 +603,7 @@ bool CanettiGennaroJareckiKrawczykRabinRVSS::Share
 						err << "RVSS(" << label << "): P_" << idx2dkg[i] << ": receiving complaint against P_" << idx2dkg[who] << " from P_" << idx2dkg[j] << std::endl;
 						complaints_counter[who]++;
 						dup.insert(std::pair<size_t, bool>(who, true)); // mark as counted for $P_j$
+						complainers[who].push_back(j);
 						if (who == i)
 							complaints_from.push_back(idx2dkg[j]); // remember where the complaints are from
 					}
@@ -642,6 +647,7 @@ bool CanettiGennaroJareckiKrawczykRabinRVSS::Share
 			if (j != i)
 			{
 				size_t cnt = 0;
+				std::vector<size_t> answered; // complaints answered by $P_j$
 				do
 				{
 					if (!rbc->DeliverFrom(lhs, j))
@@ -653,6 +659,7 @@ bool CanettiGennaroJareckiKrawczykRabinRVSS::Share
 					size_t who = mpz_get_ui(lhs);
 					if (who >= n)
 						break; // end marker received
+					answered.push_back(who);
 					if (!rbc->DeliverFrom(foo, j))
 					{
 						err << "RVSS(" << label << "): P_" << idx2dkg[i] << ": receiving foo failed; complaint against P_" << idx2dkg[j] << std::endl;
@@ -713,6 +720,12 @@ bool CanettiGennaroJareckiKrawczykRabinRVSS::Share
 					cnt++;
 				}
 				while (cnt <= n);
+				// a dealer who leaves a complaint unanswered is disqualified
+				for (std::vector<size_t>::iterator it = complainers[j].begin(); it != complainers[j].end(); ++it)
+				{
+					if (std::find(answered.begin(), answered.end(), *it) == answered.end())
+						complaints.push_back(idx2dkg[j]);
+				}
 			}
 		}
 		QUAL.clear();
@@ -1509,10 +1522,14 @@ bool CanettiGennaroJareckiKrawczykRabinZVSS::Share
 		mpz_set_ui(rhs, n); // broadcast end marker
 		rbc->Broadcast(rhs);
 		complaints_counter.clear(), complaints_from.clear(); // reset for final complaint resolution
+		std::vector< std::vector<size_t> > complainers(n); // who complained against whom
 		for (size_t j = 0; j < n; j++)
 			complaints_counter.push_back(0); // initialize counter
 		for (std::vector<size_t>::iterator it = complaints.begin(); it != complaints.end(); ++it)
+		{
 			complaints_counter[dkg2idx[*it]]++; // count my own complaints
+			complainers[dkg2idx[*it]].push_back(i);
+		}
 		complaints.clear();
 		for (size_t j = 0; j < n; j++)
 		{
@@ -1535,6 +1552,7 @@ bool CanettiGennaroJareckiKrawczykRabinZVSS::Share
 						err << "ZVSS(" << label << "): P_" << idx2dkg[i] << ": receiving complaint against P_" << idx2dkg[who] << " from P_" << idx2dkg[j] << std::endl;
 						complaints_counter[who]++;
 						dup.insert(std::pair<size_t, bool>(who, true)); // mark as counted for $P_j$
+						complainers[who].push_back(j);
 						if (who == i)
 							complaints_from.push_back(idx2dkg[j]);
 					}
@@ -1579,6 +1597,7 @@ bool CanettiGennaroJareckiKrawczykRabinZVSS::Share
 			if (j != i)
 			{
 				size_t cnt = 0;
+				std::vector<size_t> answered; // complaints answered by $P_j$
 				do
 				{
 					if (!rbc->DeliverFrom(lhs, j))
@@ -1590,6 +1609,7 @@ bool CanettiGennaroJareckiKrawczykRabinZVSS::Share
 					size_t who = mpz_get_ui(lhs);
 					if (who >= n)
 						break; // end marker received
+					answered.push_back(who);
 					if (!rbc->DeliverFrom(foo, j))
 					{
 						err << "ZVSS(" << label << "): P_" << idx2dkg[i] << ": receiving foo failed; complaint against P_" << idx2dkg[j] << std::endl;
@@ -1650,6 +1670,12 @@ bool CanettiGennaroJareckiKrawczykRabinZVSS::Share
 					cnt++;
 				}
 				while (cnt <= n);
+				// a dealer who leaves a complaint unanswered is disqualified
+				for (std::vector<size_t>::iterator it = complainers[j].begin(); it != complainers[j].end(); ++it)
+				{
+					if (std::find(answered.begin(), answered.end(), *it) == answered.end())
+						complaints.push_back(idx2dkg[j]);
+				}
 			}
 		}
 		QUAL.clear();
